@@ -16,6 +16,7 @@ import (
 	"sync"
 	"time"
 
+	"github.com/compose-spec/compose-go/v2/graph"
 	"github.com/compose-spec/compose-go/v2/loader"
 	"github.com/compose-spec/compose-go/v2/types"
 
@@ -247,6 +248,67 @@ func main() {
 				for name, s := range q.Services {
 					if s.Image != "new-"+name {
 						out.TransformWrong = append(out.TransformWrong, "service "+name+" not transformed")
+					}
+				}
+			}(k)
+		}
+	}
+	// ---- the dependency-ordered traversal, free running, next to the loads: visits of independent services run
+	// concurrently; every visit must come after the visits of the service's dependencies, exactly once
+	if job.Transform > 0 {
+		n := job.Transform - 1
+		for k := 0; k < 2; k++ {
+			wg.Add(1)
+			go func(k int) {
+				defer wg.Done()
+				<-start
+				rng := rand.New(rand.NewSource(job.Seed + 31*int64(k)))
+				p := &types.Project{Name: "g", Services: types.Services{}}
+				deps := map[string][]string{}
+				for v := 0; v < n; v++ {
+					name := fmt.Sprintf("s%d", v)
+					svc := types.ServiceConfig{Name: name, DependsOn: types.DependsOnConfig{}}
+					for u := 0; u < v; u++ {
+						if rng.Intn(3) == 0 {
+							d := fmt.Sprintf("s%d", u)
+							svc.DependsOn[d] = types.ServiceDependency{Condition: types.ServiceConditionStarted, Required: true}
+							deps[name] = append(deps[name], d)
+						}
+					}
+					p.Services[name] = svc
+				}
+				var vmu sync.Mutex
+				done := map[string]bool{}
+				visits := map[string]int{}
+				bad := ""
+				err := graph.InDependencyOrder(context.Background(), p, func(_ context.Context, name string, _ types.ServiceConfig) error {
+					vmu.Lock()
+					visits[name]++
+					for _, d := range deps[name] {
+						if !done[d] {
+							bad = name + " visited before its dependency " + d
+						}
+					}
+					vmu.Unlock()
+					if rng2 := len(name) + k; rng2%2 == 0 {
+						runtime.Gosched()
+					}
+					vmu.Lock()
+					done[name] = true
+					vmu.Unlock()
+					return nil
+				}, graph.WithMaxConcurrency(1+k*3))
+				mu.Lock()
+				defer mu.Unlock()
+				if err != nil {
+					out.TransformWrong = append(out.TransformWrong, "traversal: "+err.Error())
+				}
+				if bad != "" {
+					out.TransformWrong = append(out.TransformWrong, "traversal: "+bad)
+				}
+				for v := 0; v < n; v++ {
+					if c := visits[fmt.Sprintf("s%d", v)]; c != 1 {
+						out.TransformWrong = append(out.TransformWrong, fmt.Sprintf("traversal: s%d visited %d times", v, c))
 					}
 				}
 			}(k)
